@@ -295,7 +295,7 @@ func readHashes(path string, into map[int64]uint64) {
 }
 
 func init() {
-	cases := tierN(20000, 400000)
+	cases := tierN(60000, 800000)
 	fw.Register(&fw.Prop{
 		ID: "C07", Cases: cases,
 		Run: func(c *fw.Ctx) {
